@@ -3,9 +3,9 @@
    RunIsolation.tla.  obs.ndjson, one event per line, traces separated by "reset":
      reset  {t, kind, runs, calls}        kind "sched": gate events forced in a TLC-exported order;
                                           "free": unconstrained concurrent runs; "hist": sequential runs
-     gate   {t, run, g, ptr}              g = "native-call" | "args-get" | "args-put"; ptr = small id of the
+     gate   {t, run, g, ptr, go}          g = "native-call" (go = 1: started with a go statement) | "args-get" | "args-put"; ptr = small id of the
                                           argument slice (by address, numbered in order of first appearance)
-     host   {t, run, seen}                the host function executed for run `run` (from its context) and
+     host   {t, run, seen, async}         the host function executed (async = 1: in the goroutine of a go call) for run `run` (from its context) and
                                           saw arguments belonging to run `seen`
      result {t, run, same, outcome}       the run's output+error+prints equal (same) those of a single run
                                           of a FRESHLY BUILT copy with the same inputs; outcome ok|hostpanic|gate-timeout
@@ -14,49 +14,63 @@
    args-put before Pool.Put), so overlapping holds in the log are overlapping holds in reality. *)
 EXTENDS RunIsolation, Json
 Trace == ndJsonDeserialize("obs.ndjson")
-VARIABLES l, bad, cur, rejected
+VARIABLES l, bad, cur, rejected, isgo      \* isgo[r]: the native call r has entered was started with `go`
 Ev == Trace[l]
 IsEvent(e) == l <= Len(Trace) /\ Ev.ev = e /\ l' = l + 1
 TInit == /\ l = 1 /\ bad = <<>> /\ cur = [t |-> 0, kind |-> "", runs |-> 0] /\ rejected = FALSE
          /\ pc = <<>> /\ ncall = <<>> /\ held = <<>> /\ free = {} /\ nslices = 0 /\ content = <<>> /\ out = <<>> /\ hist = <<>>
+         /\ detached = {} /\ isgo = <<>>
 TReset == /\ IsEvent("reset") /\ cur' = [t |-> Ev.t, kind |-> Ev.kind, runs |-> Ev.runs] /\ rejected' = FALSE
           /\ pc' = [r \in 1..Ev.runs |-> "enter"] /\ ncall' = [r \in 1..Ev.runs |-> 0] /\ held' = [r \in 1..Ev.runs |-> 0]
           /\ free' = {} /\ nslices' = 0 /\ content' = <<>> /\ out' = [r \in 1..Ev.runs |-> <<>>] /\ hist' = <<>>
+          /\ detached' = {} /\ isgo' = [r \in 1..Ev.runs |-> FALSE]
           /\ UNCHANGED bad
 \* spec actions with the logged fields bound; Calls is not bounded in a trace (guard on ncall dropped)
 TEnter == /\ IsEvent("gate") /\ Ev.g = "native-call" /\ pc[Ev.run] = "enter"
           /\ pc' = [pc EXCEPT ![Ev.run] = "get"] /\ hist' = Append(hist, Ev.run)
-          /\ UNCHANGED <<ncall, held, free, nslices, content, out, bad, cur, rejected>>
+          /\ isgo' = [isgo EXCEPT ![Ev.run] = (Ev.go = 1)]
+          /\ UNCHANGED <<ncall, held, free, nslices, content, out, detached, bad, cur, rejected>>
 \* functions without parameters take no slice: a call may also complete without get/put
 TEnterNoArgs == /\ IsEvent("gate") /\ Ev.g = "native-call" /\ pc[Ev.run] = "get"
-                /\ hist' = Append(hist, Ev.run) /\ UNCHANGED <<pc, ncall, held, free, nslices, content, out, bad, cur, rejected>>
-TGet == /\ IsEvent("gate") /\ Ev.g = "args-get" /\ GetFill(Ev.run, Ev.ptr) /\ UNCHANGED <<bad, cur, rejected>>
+                /\ hist' = Append(hist, Ev.run) /\ UNCHANGED <<pc, ncall, held, free, nslices, content, out, detached, isgo, bad, cur, rejected>>
+TGet == /\ IsEvent("gate") /\ Ev.g = "args-get" /\ ~isgo[Ev.run] /\ GetFill(Ev.run, Ev.ptr) /\ UNCHANGED <<isgo, bad, cur, rejected>>
+\* a call started with `go`: the two spec actions GetFill and GoCall composed (the VM goes on at once)
+TGetGo == /\ IsEvent("gate") /\ Ev.g = "args-get" /\ isgo[Ev.run] /\ pc[Ev.run] = "get"
+          /\ \/ Ev.ptr \in free /\ free' = free \ {Ev.ptr} /\ UNCHANGED nslices /\ content' = [content EXCEPT ![Ev.ptr] = Ev.run]
+             \/ Ev.ptr = nslices + 1 /\ nslices' = Ev.ptr /\ UNCHANGED free /\ content' = Append(content, Ev.run)
+          /\ detached' = detached \cup {Ev.ptr}
+          /\ pc' = [pc EXCEPT ![Ev.run] = "enter"] /\ ncall' = [ncall EXCEPT ![Ev.run] = @ + 1]
+          /\ hist' = Append(hist, Ev.run) /\ UNCHANGED <<held, out, isgo, bad, cur, rejected>>
 \* sync.Pool may drop a slice (GC) - then a later Get returns a fresh one; it may never hand out a slice that is held
 TPut == /\ IsEvent("gate") /\ Ev.g = "args-put" /\ held[Ev.run] = Ev.ptr /\ pc[Ev.run] \in {"call", "put"}
         /\ free' = free \cup {Ev.ptr}
         /\ pc' = [pc EXCEPT ![Ev.run] = "enter"] /\ ncall' = [ncall EXCEPT ![Ev.run] = @ + 1] /\ held' = [held EXCEPT ![Ev.run] = 0]
-        /\ hist' = Append(hist, Ev.run) /\ UNCHANGED <<nslices, content, out, bad, cur, rejected>>
+        /\ hist' = Append(hist, Ev.run) /\ UNCHANGED <<nslices, content, out, detached, isgo, bad, cur, rejected>>
 \* the host function ran for Ev.run: it must have seen that run's own arguments (Isolation)
 \* (every host function of the replayed artefacts takes arguments, so it runs while its run holds a slice)
-THost == /\ IsEvent("host") /\ Ev.seen = Ev.run /\ pc[Ev.run] = "call" /\ held[Ev.run] # 0
+THost == /\ IsEvent("host") /\ Ev.async = 0 /\ Ev.seen = Ev.run /\ pc[Ev.run] = "call" /\ held[Ev.run] # 0
          /\ pc' = [pc EXCEPT ![Ev.run] = "put"]
          /\ out' = [out EXCEPT ![Ev.run] = Append(@, Ev.seen)]
-         /\ UNCHANGED <<ncall, held, free, nslices, content, hist, bad, cur, rejected>>
+         /\ UNCHANGED <<ncall, held, free, nslices, content, detached, hist, isgo, bad, cur, rejected>>
+\* the host function of a `go` call ran: it saw the arguments of the run that started it (HostAsync)
+THostAsync == /\ IsEvent("host") /\ Ev.async = 1 /\ Ev.seen = Ev.run
+              /\ \E s \in detached : content[s] = Ev.run /\ HostAsync(s)
+              /\ UNCHANGED <<isgo, bad, cur, rejected>>
 TResult == /\ IsEvent("result") /\ Ev.same /\ Ev.outcome = "ok"
-           /\ UNCHANGED <<vars, bad, cur, rejected>>
+           /\ UNCHANGED <<vars, isgo, bad, cur, rejected>>
 TSkipped == /\ IsEvent("result") /\ Ev.outcome = "gate-timeout"        \* machinery could not force the schedule: not judged
-            /\ UNCHANGED <<vars, bad, cur, rejected>>
-TPtrVar == /\ IsEvent("ptrvar") /\ Ev.ok /\ UNCHANGED <<vars, bad, cur, rejected>>
-Explained == ENABLED TReset \/ ENABLED TEnter \/ ENABLED TEnterNoArgs \/ ENABLED TGet \/ ENABLED TPut \/ ENABLED THost
+            /\ UNCHANGED <<vars, isgo, bad, cur, rejected>>
+TPtrVar == /\ IsEvent("ptrvar") /\ Ev.ok /\ UNCHANGED <<vars, isgo, bad, cur, rejected>>
+Explained == ENABLED TReset \/ ENABLED TEnter \/ ENABLED TEnterNoArgs \/ ENABLED TGet \/ ENABLED TGetGo \/ ENABLED TPut \/ ENABLED THost \/ ENABLED THostAsync
              \/ ENABLED TResult \/ ENABLED TSkipped \/ ENABLED TPtrVar
 Skip == /\ l <= Len(Trace) /\ ~Explained /\ l' = l + 1
         /\ bad' = IF rejected \/ Len(bad) >= 300 THEN bad
                   ELSE Append(bad, [k |-> l, id |-> cur.t,
                                     sig |-> [fam |-> "runiso", kind |-> cur.kind, at |-> Ev.ev,
                                              what |-> IF Ev.ev = "gate" THEN Ev.g ELSE IF Ev.ev = "result" THEN Ev.outcome ELSE "-"]])
-        /\ rejected' = TRUE /\ UNCHANGED <<vars, cur>>
-TNext == TReset \/ TEnter \/ TEnterNoArgs \/ TGet \/ TPut \/ THost \/ TResult \/ TSkipped \/ TPtrVar \/ Skip
+        /\ rejected' = TRUE /\ UNCHANGED <<vars, isgo, cur>>
+TNext == TReset \/ TEnter \/ TEnterNoArgs \/ TGet \/ TGetGo \/ TPut \/ THost \/ THostAsync \/ TResult \/ TSkipped \/ TPtrVar \/ Skip
 Done == l = Len(Trace) + 1 => ndJsonSerialize("bad.ndjson", bad)
 Consumed == TLCGet("stats").diameter - 1 = Len(Trace)
-TraceInv == Exclusive /\ NoHeldInPool /\ Isolation
+TraceInv == Exclusive /\ NoHeldInPool /\ Isolation /\ DetachedNotPooled
 =============================================================================
